@@ -10,4 +10,5 @@ CONSTANTS
 VIEW View
 INVARIANTS CounterSane CallbacksOnce DoneAfterQuiescence NoRunDuringCb ClosedMeansIdle StepClauses OnceOwner TypeOK NoDeadlock
 PROPERTY Termination
+PROPERTY RefinesCore
 CHECK_DEADLOCK FALSE
